@@ -741,6 +741,10 @@ def setbool_cases():
             res.append(Case('hist DX 0 obj;%s;addcs:0:x636b:1;setb:1:%d;setb:1:%d;deto:0:x636b;del:1;del:0' % (b0, v, 1 - v), {'tags': ['directed', 'setbool-flagged']}))
             res.append(Case('hist DX 0 obj;%s;addcs:0:x636b:1;%s;setb:1:%d;repocs:0:x636b:2;del:0' % (b0, b0, v), {'tags': ['directed', 'setbool-flagged']}))
             res.append(Case('hist DX 0 arr;%s;addref:0:1;get:0:0;setb:2:%d;each:0;del:0;del:1' % (b0, v), {'tags': ['directed', 'setbool-flagged']}))
+    # cJSON_SetValuestring on reference nodes (borrowed value: caller string / string of another tree): refused for every length
+    for v in ('x61', 'x6c6f6e676572', 'x6c6f6e676572207468616e20746865206f6c642076616c7565', 'x'):
+        res.append(Case('hist DX 0 sref:x6c6f6e676572;sets:0:%s;gets:0;del:0' % v, {'tags': ['directed', 'setvaluestring-on-reference']}))
+        res.append(Case('hist DX 0 str:x6c6f6e676572;arr;addref:1:0;get:1:0;sets:2:%s;gets:0;gets:2;del:1;gets:0;del:0' % v, {'tags': ['directed', 'setvaluestring-on-reference']}))
     return res
 
 def directed_key_cases():
